@@ -154,7 +154,9 @@ impl DiskRowset {
                     let mut first_key: &[u8] = &index.first_key;
                     let first_val: i32 = PrimitiveFixedWidthEncode::decode(&mut first_key);
 
-                    if first_val > begin_val {
+                    // rows equal to `begin_val` may already sit at the end of the block before
+                    // the first one that starts with it
+                    if first_val >= begin_val {
                         break;
                     }
                     pre_block_first_key = index.first_rowid;
